@@ -534,8 +534,12 @@ class LazyList(collections_abc.Sequence, Copyable):
 
     def __getitem__(self, slice_):
         # note that we have to check for iterable *before* __index__ as ndarray
-        # has both (but we expect the iteration behavior when slicing)
-        if isinstance(slice_, collections_abc.Iterable):
+        # has both (but we expect the iteration behavior when slicing). A
+        # 0-dimensional array cannot be iterated - it is an integer index.
+        if (
+            isinstance(slice_, collections_abc.Iterable)
+            and getattr(slice_, "ndim", None) != 0
+        ):
             # An iterable object is passed - return a new LazyList
             return LazyList([self._callables[s] for s in slice_])
         elif isinstance(slice_, int) or hasattr(slice_, "__index__"):
